@@ -103,6 +103,10 @@ def gen_scenario(seed, profile=None):
             loc = {k: v for k, v in loc.items() if v != dict((b[0], b[2]) for b in bounds)[k]} or loc
         if x < 0.45:
             steps.append({"op": "instance", "loc": loc})
+            if rng.random() < 0.3:
+                steps[-1]["attrs"] = rng.choice([
+                    {"postScriptFontName": "Inst-S", "styleMapFamilyName": "Inst", "styleMapStyleName": "bold"},
+                    {"styleName": None}, {"familyName": None, "styleMapStyleName": "regular"}])
             produced += 1
         elif x < 0.6:
             steps.append({"op": "glyph_instance", "glyph": rng.choice(names), "loc": loc,
@@ -331,13 +335,15 @@ class Model:
         return out
 
 
-def _instance_descriptor(loc):
+def _instance_descriptor(loc, attrs=None):
     from fontTools.designspaceLib import InstanceDescriptor
 
     d = InstanceDescriptor()
     d.designLocation = dict(loc)
     d.familyName = "Inst"
     d.styleName = "S"
+    for k, v in (attrs or {}).items():
+        setattr(d, k, v)
     return d
 
 
@@ -349,7 +355,7 @@ def _request(sysm, st, fault=None):
     try:
         with (tf if tf is not None else _null()):
             if st["op"] == "instance":
-                res = inst.generate_instance(_instance_descriptor(st["loc"]))
+                res = inst.generate_instance(_instance_descriptor(st["loc"], st.get("attrs")))
             elif st["op"] == "glyph_instance":
                 loc = {**inst.default_design_location, **st["loc"]}
                 if st.get("into"):
@@ -487,11 +493,13 @@ def check_instance(model, st, snap, msgs):
     claims += 1
     # OS/2 weight / width class derived from the wght / wdth axes when no master sets them
     for ax in model.axes_raw:
-        attr = {"wght": "openTypeOS2WeightClass", "wdth": "openTypeOS2WidthClass"}.get(ax.get("tag"))
+        attr = {"wght": "openTypeOS2WeightClass", "wdth": "openTypeOS2WidthClass",
+                "slnt": "italicAngle"}.get(ax.get("tag"))
         if attr is None or any(attr in model.twins[s_["font"]]["info"] for s_ in model.sources):
             continue
         user = instmodel.map_backward(ax, full[ax["name"]])
-        want = instmodel.weight_class(user) if ax["tag"] == "wght" else instmodel.width_class(user)
+        want = (instmodel.weight_class(user) if ax["tag"] == "wght" else
+                instmodel.width_class(user) if ax["tag"] == "wdth" else min(max(user, -90), 90))
         if snap["info"].get(attr) != want:
             msgs.append("info/%s model %r got %r (axis user value %r)" % (attr, want, snap["info"].get(attr), user))
         claims += 1
